@@ -413,6 +413,9 @@ type ShardedMap[K cmp.Ordered, V any] struct {
 	seed    uint32
 	length  int64
 	l       sync.RWMutex
+	// lengthl keeps length in step with the shards; the operations which
+	// update length hold the read lock, Empty and Close hold the write lock.
+	lengthl sync.RWMutex
 }
 
 func NewShardedMap[K cmp.Ordered, V any](
@@ -537,6 +540,9 @@ func (l *ShardedMap[K, V]) Value(k K) (v V, found bool) {
 }
 
 func (l *ShardedMap[K, V]) SetValue(k K, v V) (added bool) {
+	l.lengthl.RLock()
+	defer l.lengthl.RUnlock()
+
 	switch i, isclosed := l.newItem(k); {
 	case isclosed:
 		return false
@@ -551,6 +557,9 @@ func (l *ShardedMap[K, V]) SetValue(k K, v V) (added bool) {
 }
 
 func (l *ShardedMap[K, V]) RemoveValue(k K) bool {
+	l.lengthl.RLock()
+	defer l.lengthl.RUnlock()
+
 	switch i, found, isclosed := l.loadItem(k); {
 	case isclosed, !found:
 		return false
@@ -582,6 +591,9 @@ func (l *ShardedMap[K, V]) GetOrCreate(
 	f func(_ V, created bool) error,
 	create func() (V, error),
 ) error {
+	l.lengthl.RLock()
+	defer l.lengthl.RUnlock()
+
 	switch i, isclosed := l.newItem(k); {
 	case isclosed:
 		return ErrLockedMapClosed.WithStack()
@@ -606,6 +618,9 @@ func (l *ShardedMap[K, V]) GetOrCreate(
 }
 
 func (l *ShardedMap[K, V]) Set(k K, f func(V, bool) (V, error)) (v V, created bool, _ error) {
+	l.lengthl.RLock()
+	defer l.lengthl.RUnlock()
+
 	switch i, isclosed := l.newItem(k); {
 	case isclosed:
 		return v, false, ErrLockedMapClosed.WithStack()
@@ -620,6 +635,9 @@ func (l *ShardedMap[K, V]) Set(k K, f func(V, bool) (V, error)) (v V, created bo
 }
 
 func (l *ShardedMap[K, V]) Remove(k K, f func(V, bool) error) (bool, error) {
+	l.lengthl.RLock()
+	defer l.lengthl.RUnlock()
+
 	switch i, found, isclosed := l.loadItem(k); {
 	case isclosed:
 		return false, ErrLockedMapClosed.WithStack()
@@ -643,6 +661,9 @@ func (l *ShardedMap[K, V]) Remove(k K, f func(V, bool) error) (bool, error) {
 }
 
 func (l *ShardedMap[K, V]) SetOrRemove(k K, f func(V, bool) (V, bool, error)) (v V, _, _ bool, _ error) {
+	l.lengthl.RLock()
+	defer l.lengthl.RUnlock()
+
 	switch i, isclosed := l.newItem(k); {
 	case isclosed:
 		return v, false, false, ErrLockedMapClosed.WithStack()
@@ -733,6 +754,9 @@ func (l *ShardedMap[K, V]) Len() int {
 }
 
 func (l *ShardedMap[K, V]) Close() {
+	l.lengthl.Lock()
+	defer l.lengthl.Unlock()
+
 	l.l.Lock()
 	defer l.l.Unlock()
 
@@ -750,6 +774,9 @@ func (l *ShardedMap[K, V]) Close() {
 }
 
 func (l *ShardedMap[K, V]) Empty() {
+	l.lengthl.Lock()
+	defer l.lengthl.Unlock()
+
 	l.l.Lock()
 	defer l.l.Unlock()
 
